@@ -32,6 +32,9 @@ SHAPES += [("tiny*q+q", 2, lambda a, b: B("+", B("*", N("1e-13"), a), b)), ("dig
 SHAPES_T = [("q*q*q-q", 4, lambda a, b, c, d: B("-", B("*", B("*", a, b), c), d)), ("q**2-q/q", 3, lambda a, b, c: B("-", B("**", a, N("2")), B("/", b, c)))]
 
 
+LIGHT = {"tiny*q+q", "digits*q", "huge*q-q", "q/big", "q*q-q (repeated)", "q+c", "c-q/q"}
+
+
 def make_script(expr, pos, context):
     x = ("decl", "float", "x", N("2.5"))
     if pos == "pos":
@@ -100,9 +103,12 @@ def build(ctx):
         perms = list(itertools.permutations(regs, k))
         if ctx.quick and k == 3:
             perms = perms        # all 24
+        light = ctx.quick and name in LIGHT      # coefficient / repetition shapes: the register choice is not what they vary
+        if light:
+            perms = perms[:3]
         for rs in perms:
-            for pos in ("pos", "kw") + (("both",) if (not ctx.quick or k <= 2) else ()):
-                for context in ("plain", "after-measure", "loop"):
+            for pos in ("pos", "kw") + (("both",) if (not ctx.quick or k <= 2) and not light else ()):
+                for context in ("plain", "after-measure", "loop") if not light else ("plain", "loop"):
                     if context == "after-measure" and pos != "pos":
                         continue
                     if ctx.quick and context == "loop" and k == 3 and rs != tuple(sorted(rs, key=str)):
